@@ -199,10 +199,12 @@ PROOFS = [
     {'name': 'Decode_functional', 'enforce': 'Base64Decoder_Decode', 'replace': ['Base64Decoder_CalculateDecodedSize'], 'loops': 'contracts',
      'props': ['C20'], 'cost': 50, 'defs': ['-DVS_FUNCTIONAL'], 'timeout': 1500,
      'harness': 'void h_Decode_functional(void) { struct Base64Decoder *a0; Base64Decoder_Decode(a0); }\n'},
-    {'name': 'DecodeCharacter', 'enforce': 'Base64Decoder_DecodeCharacter', 'props': ['C20', 'C03']},
+    {'name': 'DecodeCharacter', 'enforce': 'Base64Decoder_DecodeCharacter', 'props': ['C20', 'C03'],
+     'replay': {'driver': 'b64', 'argv': ['decchar', '$Character'], 'include_cc': ('VS_BASE64_CC', 'src/common/base64.cc')}},
     {'name': 'CalculateDecodedSize', 'enforce': 'Base64Decoder_CalculateDecodedSize', 'loops': 'contracts', 'props': ['C20', 'C03']},
     {'name': 'Decode', 'enforce': 'Base64Decoder_Decode', 'replace': ['Base64Decoder_CalculateDecodedSize'], 'loops': 'contracts', 'props': ['C20', 'C03'], 'cost': 5},
-    {'name': 'EncodeByte', 'enforce': 'Base64Encoder_EncodeByte', 'props': ['C20']},
+    {'name': 'EncodeByte', 'enforce': 'Base64Encoder_EncodeByte', 'props': ['C20'],
+     'replay': {'driver': 'b64', 'argv': ['encbyte', '$Byte'], 'include_cc': ('VS_BASE64_CC', 'src/common/base64.cc')}},
     {'name': 'CalculateEncodedSize', 'enforce': 'Base64Encoder_CalculateEncodedSize', 'props': ['C20', 'C03']},
     {'name': 'Encode', 'enforce': 'Base64Encoder_Encode', 'replace': ['Base64Encoder_EncodeByte', 'Base64Encoder_CalculateEncodedSize'], 'loops': 'contracts', 'props': ['C20'], 'cost': 10},
 ]
